@@ -138,6 +138,7 @@ def run_two_dumps(ctx, st):
         try:
             out = list(p.parse(make_stream(data)))
         except Exception as e:      # noqa
+            __import__('vxlib.symx.core', fromlist=['x']).proxy_rejected(e)
             ctx.check('C03/two-dumps/no-error', False, '%s: %s' % (type(e).__name__, e)); ctx.reach(); return
         codes, kexts, dyld, procs, images, logs, strings = expected_metadata(blocks)
         L = 'C03/two-dumps/%s' % ('first' if i == 0 else 'second')
@@ -176,6 +177,7 @@ def run(ctx, st):
         for x in parser.parse(make_stream(data)):
             out.append(x)
     except Exception as e:      # noqa
+        __import__('vxlib.symx.core', fromlist=['x']).proxy_rejected(e)
         err = e
     L = 'C03'
     if not resolvable:
